@@ -95,6 +95,9 @@ func conformMain(rc *RunCtx) {
 		if cfg.Fast && len(cfg.AllowedFast) == 0 && st.Bool(1, 3) {
 			cfg.AllowedFast = append(cfg.AllowedFast, spec.DrawPiece(st))
 		}
+		if cfg.Ext && st.Bool(1, 4) {
+			cfg.ExtP = 9000 + i // (behind a port forwarder: not the port it is reached at)
+		}
 		p := w.NewPeer(spec, cfg)
 		if st.Bool(1, 2) {
 			p.Connect()
@@ -470,7 +473,7 @@ func uploadMain(rc *RunCtx) {
 	for i := 0; i < nl; i++ {
 		cfg := PeerCfg{
 			Name: fmt.Sprintf("leech%d", i), Port: 0, Fast: st.Bool(1, 2), Ext: st.Bool(2, 3), MSE: st.Bool(1, 4),
-			Have: func(int) bool { return false }, Advertise: st.Choice(2), Reqq: -1, MetadataSize: -1, UnchokeAfter: -1,
+			Have: func(int) bool { return false }, Advertise: st.Choice(2), Reqq: simrt.Pick(st, -1, -1, 100000, 1000, 16), MetadataSize: -1, UnchokeAfter: -1,
 		}
 		flood := st.Bool(1, 6)
 		stopRead := st.Bool(1, 4)
